@@ -3,8 +3,9 @@
    1. escaped dots, in general (no stored segment percent-decodes to "." / ".." under an authority);
       what the non-requoting PATH_QUOTER does with a supplied "%2E";
    2. per entry point: the stored path against RFC 3986 §5.2.4 `remove_dot_segments` of the rooted
-      path that was supplied / merged (build, with_path, `/` + joinpath) — with the exact deviations
-      of with_path and `/` (both only when the RFC result is "/" or starts with "//");
+      path that was supplied / merged (build, with_path, `/` + joinpath) — with_path is RFC-exact since
+      fix 7cae68c (`C15_with_path_rfc`, `C15_with_path_rfc_now_exact`); the exact deviation of `/` stays
+      (only when the RFC result is "/" or starts with "//");
    3. without an authority build and `/` + joinpath keep every dot segment.
 -/
 import YarlModel
@@ -172,6 +173,7 @@ theorem C15_build_path (e : Env) (a : BuildArgs) (u : Url) (henc : a.encoded = f
   obtain ⟨qs, _, h⟩ := bind_ok h
   rw [henc] at h
   rw [if_neg (by decide)] at h
+  obtain ⟨sc, _, h⟩ := bind_ok h   -- the lowered scheme (fix e21485a)
   obtain ⟨netloc, _, h⟩ := bind_ok h
   obtain ⟨path, hpath, h⟩ := bind_ok h
   cases h
@@ -212,94 +214,82 @@ theorem C15_build_rfc (e : Env) (a : BuildArgs) (u : Url) :
     subst this
     exact ⟨Or.inl rfl, rfl⟩
 
-/-- with_path, the three shapes of the quoted argument `p` under an authority:
-    empty — stored empty; rooted — stored `remove_dot_segments p`; rootless — the argument is normalised as a
-    RELATIVE path `N = normalize_path(p)` and rooted afterwards (`fixRoot`: a '/' is put in front unless `N` is
-    empty or already starts with '/'), while §5.2.4 applied to the rooted argument gives exactly "/" ++ N. -/
+/-- with_path under an authority IS §5.2.4 (defect fixed by commit 7cae68c: the argument is rooted BEFORE
+    `normalize_path` runs).  With `p` the quoted argument:
+    empty — stored empty: an empty `p` has no '.', so it is neither rooted nor normalised, and the closing
+      `if path and path[0] != "/"` leaves "" alone (`raw_path` then shows "/");
+    non-empty — the stored path IS `remove_dot_segments (rooted p)`, where `rooted p` is `p` itself when `p` starts
+      with '/' and `"/" ++ p` when it is rootless (last two clauses).  No deviation is left. -/
 theorem C15_with_path_rfc (e : Env) (u : Url) (path : Str) (kq kf : Bool) (hn : u.netloc ≠ []) :
     let p := q e Gen.PATH_QUOTER path
     let stored := (withPath e u path false kq kf).path
     (p = [] → stored = []) ∧
-    (∀ r, p = 47 :: r → stored = Rfc.removeDotSegments p) ∧
-    (p ≠ [] → p.head? ≠ some 47 →
-      Rfc.removeDotSegments (47 :: p) = 47 :: normalizePath p ∧ stored = fixRoot (normalizePath p)) := by
+    (p ≠ [] → stored = Rfc.removeDotSegments (rooted p)) ∧
+    (∀ r, p = 47 :: r → rooted p = p) ∧
+    (p ≠ [] → p.head? ≠ some 47 → rooted p = 47 :: p) := by
   intro p stored
-  have hne : (!u.netloc.isEmpty) = true := ReachFix.ne_nil_of_not_isEmpty hn
-  have hst : stored = fixRoot (normalizePath p) := by
-    show (withPath e u path false kq kf).path = _
-    unfold withPath
-    simp only [fromParts, Bool.not_false, if_true, hne, guard_eq]
-    rfl
-  refine ⟨?_, ?_, ?_⟩
-  · intro hp; rw [hst, hp]; rfl
-  · intro r hp
-    rw [hst, hp, C15_rfc]
-    obtain ⟨t, ht⟩ := C15_rooted r
-    rw [← C15_rfc, ht]; rfl
+  have hst : stored = if p = [] then [] else Rfc.removeDotSegments (rooted p) :=
+    C15_entry_withPath_rfc e u path kq kf hn
+  refine ⟨?_, ?_, ?_, ?_⟩
+  · intro hp; rw [hst, if_pos hp]
+  · intro hp; rw [hst, if_neg hp]
+  · intro r hp; rw [hp]; rfl
   · intro hp0 hp47
-    refine ⟨?_, hst⟩
-    rw [← C15_rfc]
     cases hpc : p with
     | nil => exact absurd hpc hp0
     | cons c t =>
       have hc : c ≠ 47 := by
         intro hc; rw [hpc, hc] at hp47; simp at hp47
-      simp only [normalizePath]
-      split
-      · rename_i rest heq; exact absurd (List.cons.inj heq).1 hc
-      · rfl
+      exact rooted_of_ne47 t hc
 
-/-- with_path, rootless argument: the stored path against `R = remove_dot_segments("/" ++ p)` — equal, except
-    that `R = "/"` is stored as the empty path and `R = "//" ++ t` is stored as `"/" ++ t` (one empty segment lost) -/
-theorem C15_with_path_rfc_cases (e : Env) (u : Url) (path : Str) (kq kf : Bool) (hn : u.netloc ≠ [])
-    (hp0 : q e Gen.PATH_QUOTER path ≠ []) (hp47 : (q e Gen.PATH_QUOTER path).head? ≠ some 47) :
-    let R := Rfc.removeDotSegments (47 :: q e Gen.PATH_QUOTER path)
-    let stored := (withPath e u path false kq kf).path
-    (R = [47] ∧ stored = []) ∨ (∃ t, R = 47 :: 47 :: t ∧ stored = 47 :: t) ∨
-    ((∀ t, R ≠ 47 :: 47 :: t) ∧ R ≠ [47] ∧ stored = R) := by
-  intro R stored
-  obtain ⟨hR, hst⟩ := (C15_with_path_rfc e u path kq kf hn).2.2 hp0 hp47
-  show (R = [47] ∧ stored = []) ∨ _
-  have hR' : R = 47 :: normalizePath (q e Gen.PATH_QUOTER path) := hR
-  have hst' : stored = fixRoot (normalizePath (q e Gen.PATH_QUOTER path)) := hst
-  rcases fixRoot_cases (normalizePath (q e Gen.PATH_QUOTER path)) with ⟨h1, h2⟩ | ⟨t, h1, h2⟩ | ⟨h1, h2, h3⟩
-  · left; rw [hR', hst', h1]; exact ⟨rfl, rfl⟩
-  · right; left; refine ⟨t, ?_, ?_⟩
-    · rw [hR', h1]
-    · rw [hst', h2]
-  · right; right
-    rw [hR', hst', h3]
-    refine ⟨?_, ?_, rfl⟩
-    · intro t ht
-      have := (List.cons.inj ht).2
-      rw [this] at h2; simp at h2
-    · intro ht
-      exact h1 (List.cons.inj ht).2
+/-- with_path, rooted argument (as before the fix): the stored path is `remove_dot_segments p` -/
+theorem C15_with_path_rfc_rooted (e : Env) (u : Url) (path : Str) (kq kf : Bool) (hn : u.netloc ≠ [])
+    (r : Str) (hp : q e Gen.PATH_QUOTER path = 47 :: r) :
+    (withPath e u path false kq kf).path = Rfc.removeDotSegments (q e Gen.PATH_QUOTER path) := by
+  have h := (C15_with_path_rfc e u path kq kf hn).2.1 (by rw [hp]; exact List.cons_ne_nil _ _)
+  rw [(C15_with_path_rfc e u path kq kf hn).2.2.1 r hp] at h
+  exact h
 
-/-- with_path, rootless argument: equality with §5.2.4 whenever the RFC result is neither "/" nor starts with "//" -/
+/-- §5.2.4 on a rooted relative path: for a non-empty rootless `p`, `remove_dot_segments ("/" ++ p)` is
+    "/" ++ `normalize_path(p)` (a fact about the two algorithms; it is why the OLD with_path, which stored
+    `fixRoot (normalize_path p)`, deviated exactly when `normalize_path p` was empty or started with '/') -/
+theorem C15_rds_rooted_relative (p : Str) (hp0 : p ≠ []) (hp47 : p.head? ≠ some 47) :
+    Rfc.removeDotSegments (47 :: p) = 47 :: normalizePath p := by
+  rw [← C15_rfc]
+  cases hpc : p with
+  | nil => exact absurd hpc hp0
+  | cons c t =>
+    have hc : c ≠ 47 := by
+      intro hc; rw [hpc, hc] at hp47; simp at hp47
+    simp only [normalizePath]
+    split
+    · rename_i rest heq; exact absurd (List.cons.inj heq).1 hc
+    · rfl
+
+/-- with_path, rootless argument: equality with §5.2.4 of "/" ++ p — ALWAYS (before fix 7cae68c this needed the
+    hypotheses that the RFC result is neither "/" nor starts with "//"; they are gone), and the stored path is
+    "/" ++ `normalize_path(p)` -/
 theorem C15_with_path_rfc_generic (e : Env) (u : Url) (path : Str) (kq kf : Bool) (hn : u.netloc ≠ [])
-    (hp0 : q e Gen.PATH_QUOTER path ≠ []) (hp47 : (q e Gen.PATH_QUOTER path).head? ≠ some 47)
-    (h1 : Rfc.removeDotSegments (47 :: q e Gen.PATH_QUOTER path) ≠ [47])
-    (h2 : ∀ t, Rfc.removeDotSegments (47 :: q e Gen.PATH_QUOTER path) ≠ 47 :: 47 :: t) :
-    (withPath e u path false kq kf).path = Rfc.removeDotSegments (47 :: q e Gen.PATH_QUOTER path) := by
-  rcases C15_with_path_rfc_cases e u path kq kf hn hp0 hp47 with ⟨h, _⟩ | ⟨t, h, _⟩ | ⟨_, _, h⟩
-  · exact absurd h h1
-  · exact absurd h (h2 t)
-  · exact h
+    (hp0 : q e Gen.PATH_QUOTER path ≠ []) (hp47 : (q e Gen.PATH_QUOTER path).head? ≠ some 47) :
+    (withPath e u path false kq kf).path = Rfc.removeDotSegments (47 :: q e Gen.PATH_QUOTER path) ∧
+    (withPath e u path false kq kf).path = 47 :: normalizePath (q e Gen.PATH_QUOTER path) := by
+  have h := (C15_with_path_rfc e u path kq kf hn).2.1 hp0
+  rw [(C15_with_path_rfc e u path kq kf hn).2.2.2 hp0 hp47] at h
+  exact ⟨h, by rw [h, C15_rds_rooted_relative _ hp0 hp47]⟩
 
-/-- COUNTEREXAMPLES to "with_path(p) stores remove_dot_segments('/' + p)" (both backends):
-    `URL("http://h/x").with_path(".//a")` stores "/a" (RFC: "//a"); `.with_path("a/..//b")` stores "/b"
-    (RFC, and the constructor on "http://h/a/..//b": "//b"); `.with_path("..")` stores "" (RFC: "/";
-    harmless — `raw_path` shows "/" for an empty path under an authority). -/
-theorem C15_with_path_rfc_counterexamples (b : Backend) :
+/-- the former COUNTEREXAMPLES to "with_path(p) stores remove_dot_segments('/' + p)" are now EXACT (defect fixed
+    by commit 7cae68c; both backends): `URL("http://h/x").with_path(".//a")` stores "//a" (was "/a");
+    `.with_path("a/..//b")` stores "//b" (was "/b") like the constructor on "http://h/a/..//b";
+    `.with_path("..")` stores "/" (was ""). -/
+theorem C15_with_path_rfc_now_exact (b : Backend) :
     let e : Env := ⟨b, Oracles.empty⟩
     let u := fromParts "http".toStr "h".toStr "/x".toStr [] []
-    (withPath e u ".//a".toStr false false false).path = "/a".toStr ∧
+    (withPath e u ".//a".toStr false false false).path = "//a".toStr ∧
       Rfc.removeDotSegments "/.//a".toStr = "//a".toStr ∧
-    (withPath e u "a/..//b".toStr false false false).path = "/b".toStr ∧
+    (withPath e u "a/..//b".toStr false false false).path = "//b".toStr ∧
       Rfc.removeDotSegments "/a/..//b".toStr = "//b".toStr ∧
       (encodeUrl e "http://h/a/..//b".toStr).map (·.path) = .ok "//b".toStr ∧
-    (withPath e u "..".toStr false false false).path = [] ∧
+    (withPath e u "..".toStr false false false).path = "/".toStr ∧
       Rfc.removeDotSegments "/..".toStr = "/".toStr := by
   cases b <;> decide +kernel
 
@@ -521,6 +511,21 @@ example (b : Backend) :
     Rfc.removeDotSegments (47 :: q e Gen.PATH_QUOTER "../a/./b c".toStr) = "/a/b%20c".toStr ∧
     (withPath e (fromParts "http".toStr "h".toStr "/x".toStr [] []) "../a/./b c".toStr false false false).path
       = "/a/b%20c".toStr := by
+  cases b <;> decide +kernel
+
+/-- GAP 2, with_path: the three shapes of `C15_with_path_rfc` on concrete arguments (empty; rooted with dots and
+    a space; rootless whose RFC result starts with "//") -/
+example (b : Backend) :
+    let e : Env := ⟨b, Oracles.empty⟩
+    let u := fromParts "http".toStr "h".toStr "/x".toStr [] []
+    u.netloc ≠ [] ∧
+    q e Gen.PATH_QUOTER [] = [] ∧ (withPath e u [] false false false).path = [] ∧
+    rooted (q e Gen.PATH_QUOTER "/a/../b c/.".toStr) = "/a/../b%20c/.".toStr ∧
+      (withPath e u "/a/../b c/.".toStr false false false).path = "/b%20c/".toStr ∧
+      Rfc.removeDotSegments "/a/../b%20c/.".toStr = "/b%20c/".toStr ∧
+    rooted (q e Gen.PATH_QUOTER "x/../..//y".toStr) = "/x/../..//y".toStr ∧
+      (withPath e u "x/../..//y".toStr false false false).path = "//y".toStr ∧
+      Rfc.removeDotSegments "/x/../..//y".toStr = "//y".toStr := by
   cases b <;> decide +kernel
 
 /-- GAP 2, `/` + joinpath: hypotheses of `C15_make_child_rfc_noclimb` hold on an input with dots -/
